@@ -3,6 +3,7 @@ package core
 import (
 	"encoding/json"
 	"fmt"
+	"sync/atomic"
 
 	"github.com/hashicorp/raft-wal/types"
 
@@ -15,9 +16,9 @@ import (
 // round-tripped through encoding/json exactly like metadb does.
 type SimMeta struct {
 	D      *simdisk.Disk
-	closed bool
-	Loads  int
-	Closes int
+	closed atomic.Bool
+	Loads  atomic.Int32
+	Closes atomic.Int32
 }
 
 func NewSimMeta(d *simdisk.Disk) *SimMeta { return &SimMeta{D: d} }
@@ -25,8 +26,8 @@ func NewSimMeta(d *simdisk.Disk) *SimMeta { return &SimMeta{D: d} }
 func (m *SimMeta) Load(dir string) (types.PersistentState, error) {
 	var st types.PersistentState
 	vsched.Yield("meta:load")
-	m.Loads++
-	m.closed = false
+	m.Loads.Add(1)
+	m.closed.Store(false)
 	raw, err := m.D.MetaLoad()
 	if err != nil {
 		return st, err
@@ -42,7 +43,7 @@ func (m *SimMeta) Load(dir string) (types.PersistentState, error) {
 
 func (m *SimMeta) CommitState(st types.PersistentState) error {
 	vsched.Yield("meta:commit")
-	if m.closed {
+	if m.closed.Load() {
 		return fmt.Errorf("simmeta: commit on closed store")
 	}
 	b, err := json.Marshal(st)
@@ -54,7 +55,7 @@ func (m *SimMeta) CommitState(st types.PersistentState) error {
 
 func (m *SimMeta) GetStable(key []byte) ([]byte, error) {
 	vsched.Yield("meta:get")
-	if m.closed {
+	if m.closed.Load() {
 		return nil, fmt.Errorf("simmeta: get on closed store")
 	}
 	return m.D.StableGet(string(key)), nil
@@ -62,7 +63,7 @@ func (m *SimMeta) GetStable(key []byte) ([]byte, error) {
 
 func (m *SimMeta) SetStable(key, value []byte) error {
 	vsched.Yield("meta:set")
-	if m.closed {
+	if m.closed.Load() {
 		return fmt.Errorf("simmeta: set on closed store")
 	}
 	return m.D.StableSet(string(key), value)
@@ -70,8 +71,8 @@ func (m *SimMeta) SetStable(key, value []byte) error {
 
 func (m *SimMeta) Close() error {
 	vsched.Yield("meta:close")
-	m.closed = true
-	m.Closes++
+	m.closed.Store(true)
+	m.Closes.Add(1)
 	return nil
 }
 
